@@ -114,6 +114,8 @@ Fixpoint last_ret (l : list stmt) : bool :=
   | _ :: l' => last_ret l' end.
 (* the kind of the result of a function: that of its returned values if it surely returns, otherwise "maybe nothing" *)
 Definition rkind (body : list stmt) (rets : list kind) : kind := if last_ret body then hd KD rets else KN.
+(* the kinds of the values a function of result kind r returns: r; a function that may return no value (KN) may also return data *)
+Definition ret_ok (r k : kind) : bool := kind_eqb r k || (kind_eqb r KN && kind_eqb k KD).
 
 (* the code of a statement (list) may end exactly at the end of the function when it is a `return` (with or without value) *)
 Definition isret (st : stmt) : bool := match st with SReturn _ => true | _ => false end.
@@ -137,15 +139,21 @@ Fixpoint noefn (e : expr) {struct e} : bool :=
   | _ => true
   end.
 
-(* the names a statement may bind: assigned names and loop counters, at any depth (a step expression of a `from` loop may read a
-   captured variable none of these shadows: the step runs while the frame of the body is still there) *)
+(* the names a statement may leave bound in a scope that did not bind them: assigned names and counters that are existing variables,
+   at any depth (a step expression of a `from` loop may read a captured variable none of these shadows: the step runs while the frame
+   of the body is still there) *)
 Fixpoint asg (st : stmt) {struct st} : list str :=
   match st with
   | SAssign x _ => [x]
   | SIf _ body | SWhile _ body => flat_map asg body
   | SIfElse _ body els => flat_map asg body ++ flat_map asg els
   | SIfElif _ body nxt => flat_map asg body ++ asg nxt
-  | SFrom _ _ _ _ nm _ body => match nm with Some x => [x] | None => [] end ++ flat_map asg body
+  | SFrom _ _ _ _ nm collide body =>
+    match nm, collide with
+    | Some x, false => filter (fun z => negb (str_eqb x z)) (flat_map asg body)    (* a fresh counter is bound throughout the body, and gone afterwards *)
+    | Some x, true => x :: flat_map asg body
+    | None, _ => flat_map asg body
+    end
   | _ => []
   end.
 Definition asgl (l : list stmt) : list str := flat_map asg l.
@@ -167,7 +175,7 @@ Fixpoint kexpr (SF : sfk) (B CD : kctx) (e : expr) {struct e} : option kind :=
   | EVar x => if src_nameb x then kvar B CD x else None
   | EBin _ a b | EAnd a b | EOr a b | ENilOr a b =>
     match kexpr SF B CD a, kexpr SF B CD b with Some KD, Some KD => Some KD | _, _ => None end
-  | ENot a | EGet a _ => match kexpr SF B CD a with Some KD => Some KD | _ => None end
+  | ENot a | ENeg a | EGet a _ => match kexpr SF B CD a with Some KD => Some KD | _ => None end
   | ECall f args =>
     match f with
     | EVar g =>
@@ -197,7 +205,7 @@ Fixpoint kexpr (SF : sfk) (B CD : kctx) (e : expr) {struct e} : option kind :=
         let r := rkind body rets0 in
         match (if kind_eqb r KD then Some rets0
                else match kb (Some (pk, r)) (rev (combine ps pk)) body with Some (_, rets) => Some rets | None => None end) with
-        | Some rets => if nodupb ps && forallb src_nameb ps && forallb (kind_eqb r) rets then Some (KF pk r) else None
+        | Some rets => if nodupb ps && forallb src_nameb ps && forallb (ret_ok r) rets then Some (KF pk r) else None
         | None => None end
       | None => None end
     | None => None end
@@ -247,7 +255,10 @@ with kstmt (SF : sfk) (il : bool) (B CD : kctx) (s : stmt) {struct s} : kres :=
     let kstep := fun B' => match step with None => true | Some e => ok_dexpr B' CD e && step_free B' body e end in
     match name, collide with
     | Some x, false =>   (* a fresh counter: a variable of the enclosing block for the duration of the loop *)
-      if is_KD (kexpr SF B CD a) && ok_dexpr B CD b && src_nameb x && negb (mem_str x (map fst B)) && negb (mem_str x (used_e b)) &&
+      (* the VM binds the counter before it evaluates the upper bound: either that one is call-free and does not mention x, or no
+         captured variable is called x *)
+      if is_KD (kexpr SF B CD a) && is_KD (kexpr SF B CD b) && src_nameb x && negb (mem_str x (map fst B)) &&
+         (ok_dexpr B CD b && negb (mem_str x (used_e b)) || negb (mem_str x (map fst CD))) &&
          kstep ((x, KD) :: B) then
         match kb true ((x, KD) :: B) body with Some (_, r) => Some (B, r) | None => None end
       else None
@@ -290,7 +301,7 @@ Definition kfn (B CD : kctx) (ps : list str) (body : list stmt) : option (kctx *
       let r := rkind body rets0 in
       match (if kind_eqb r KD then Some rets0
              else match kblock (Some (pk, r)) false (rev (combine ps pk)) G body with Some (_, rets) => Some rets | None => None end) with
-      | Some rets => if nodupb ps && forallb src_nameb ps && forallb (kind_eqb r) rets then Some (G, pk, r) else None
+      | Some rets => if nodupb ps && forallb src_nameb ps && forallb (ret_ok r) rets then Some (G, pk, r) else None
       | None => None end
     | None => None end
   | None => None end.
@@ -334,7 +345,7 @@ Lemma kexpr_eq : forall SF B CD e, kexpr SF B CD e =
   | EVar x => if src_nameb x then kvar B CD x else None
   | EBin _ a b | EAnd a b | EOr a b | ENilOr a b =>
     match kexpr SF B CD a, kexpr SF B CD b with Some KD, Some KD => Some KD | _, _ => None end
-  | ENot a | EGet a _ => match kexpr SF B CD a with Some KD => Some KD | _ => None end
+  | ENot a | ENeg a | EGet a _ => match kexpr SF B CD a with Some KD => Some KD | _ => None end
   | ECall (EVar g) args =>
       if src_nameb g then
         match kvar B CD g, kargs SF B CD args with
@@ -356,9 +367,9 @@ Proof.
     destruct (capctx B CD (free_vars ps body)) as [G|]; [|reflexivity]. rewrite !kblock_fix0.
     destruct (kblock (Some (map (pkind body) ps, KD)) false (rev (combine ps (map (pkind body) ps))) G body) as [[B' rets0]|]; [|reflexivity].
     rewrite ?kblock_fix0. destruct (kind_eqb (rkind body rets0) KD).
-    + destruct (nodupb ps && forallb src_nameb ps && forallb (kind_eqb (rkind body rets0)) rets0); reflexivity.
+    + destruct (nodupb ps && forallb src_nameb ps && forallb (ret_ok (rkind body rets0)) rets0); reflexivity.
     + destruct (kblock (Some (map (pkind body) ps, rkind body rets0)) false (rev (combine ps (map (pkind body) ps))) G body) as [[B2 rets]|]; [|reflexivity].
-      destruct (nodupb ps && forallb src_nameb ps && forallb (kind_eqb (rkind body rets0)) rets); reflexivity.
+      destruct (nodupb ps && forallb src_nameb ps && forallb (ret_ok (rkind body rets0)) rets); reflexivity.
 Qed.
 
 Lemma kstmt_SIf : forall SF il B CD c body, kstmt SF il B CD (SIf c body) =
@@ -388,7 +399,8 @@ Qed.
 Lemma kstmt_SFrom : forall SF il B CD a b incl step name collide body, kstmt SF il B CD (SFrom a b incl step name collide body) =
   match name, collide with
   | Some x, false =>
-    if is_KD (kexpr SF B CD a) && ok_dexpr B CD b && src_nameb x && negb (mem_str x (map fst B)) && negb (mem_str x (used_e b)) &&
+    if is_KD (kexpr SF B CD a) && is_KD (kexpr SF B CD b) && src_nameb x && negb (mem_str x (map fst B)) &&
+       (ok_dexpr B CD b && negb (mem_str x (used_e b)) || negb (mem_str x (map fst CD))) &&
        kstep SF ((x, KD) :: B) CD body step then
       match kblock SF true ((x, KD) :: B) CD body with Some (_, r) => Some (B, r) | None => None end
     else None
@@ -420,9 +432,9 @@ Proof.
     split; [now apply is_KD_eq|]. split; [now apply ok_dexpr_kexpr|]. exists B. split.
     + destruct (kblock SF true B CD body) as [rb|]; [eauto|discriminate].
     + intros e ->. cbn [kstep] in Hs. apply andb_true_iff in Hs as [Hs _]. now apply ok_dexpr_kexpr.
-  - destruct (is_KD (kexpr SF B CD a) && ok_dexpr B CD b && src_nameb x && negb (mem_str x (map fst B)) && negb (mem_str x (used_e b)) && kstep SF ((x, KD) :: B) CD body step) eqn:Hc; [|discriminate].
+  - match type of H with (if ?c then _ else _) = _ => destruct c eqn:Hc; [|discriminate] end.
     rewrite !andb_true_iff in Hc. destruct Hc as [[[[[Ha Hb] _] _] _] Hs].
-    split; [now apply is_KD_eq|]. split; [now apply ok_dexpr_kexpr|]. exists ((x, KD) :: B). split.
+    split; [now apply is_KD_eq|]. split; [now apply is_KD_eq|]. exists ((x, KD) :: B). split.
     + destruct (kblock SF true ((x, KD) :: B) CD body) as [rb|]; [eauto|discriminate].
     + intros e ->. cbn [kstep] in Hs. apply andb_true_iff in Hs as [Hs _]. now apply ok_dexpr_kexpr.
   - destruct (is_KD (kexpr SF B CD a) && is_KD (kexpr SF B CD b) && kstep SF B CD body step) eqn:Hc; [|discriminate].
@@ -469,6 +481,7 @@ Fixpoint ec (d lr k : nat) (e : expr) {struct e} : list instr * fbl :=
     let '(cb, fb) := ec (S d) lr (k + length fa) b in
     (ca ++ [mkI OP_STORE_SKIP [reg d; s_one; sN (length cb + 3)]] ++ cb ++ [mkI OP_LOAD_FAST [reg d]; mkI OP_BIN_OP [op_or]], fa ++ fb)
   | ENot a => let '(ca, fa) := ec (S d) lr k a in (ca ++ [mkI OP_NOT []], fa)
+  | ENeg a => let '(ca, fa) := ec (S d) lr k a in (ca ++ [mkI OP_NEG []], fa)
   | ENilOr a b =>
     let '(ca, fa) := ec (S d) lr k a in
     let '(cb, fb) := ec (S d) lr (k + length fa) b in
@@ -635,6 +648,8 @@ Lemma ec_EOr : forall d lr k a b, ec d lr k (EOr a b) =
 Proof. reflexivity. Qed.
 Lemma ec_ENot : forall d lr k a, ec d lr k (ENot a) = let '(ca, fa) := ec (S d) lr k a in (ca ++ [mkI OP_NOT []], fa).
 Proof. reflexivity. Qed.
+Lemma ec_ENeg : forall d lr k a, ec d lr k (ENeg a) = let '(ca, fa) := ec (S d) lr k a in (ca ++ [mkI OP_NEG []], fa).
+Proof. reflexivity. Qed.
 Lemma ec_ENilOr : forall d lr k a b, ec d lr k (ENilOr a b) =
   let '(ca, fa) := ec (S d) lr k a in
   let '(cb, fb) := ec (S d) lr (k + length fa) b in
@@ -653,6 +668,7 @@ Proof.
   - apply andb_true_iff in Hp as [H1 H2]. rewrite ec_EAnd, (IHe1 H1), (IHe2 H2). reflexivity.
   - apply andb_true_iff in Hp as [H1 H2]. rewrite ec_EOr, (IHe1 H1), (IHe2 H2). reflexivity.
   - rewrite ec_ENot, (IHe Hp). reflexivity.
+  - rewrite ec_ENeg, (IHe Hp). reflexivity.
   - apply andb_true_iff in Hp as [H1 H2]. rewrite ec_ENilOr, (IHe1 H1), (IHe2 H2). reflexivity.
   - rewrite ec_EGet, (IHe Hp). reflexivity.
 Qed.
@@ -880,8 +896,12 @@ Proof.
     destruct (kexpr SF B CD a) as [[|? ?|]|] eqn:Ea; try discriminate.
     rewrite cexpr_ENot, ec_ENot. rewrite (IHa SF B CD _ Ea (S d) st).
     destruct (ec path (S d) (lreg st) (fid st) a) as [ca fa]. cbn [fst snd]. now rewrite map_app.
-  - intros a _ SF B CD k0 Hk d st. rewrite kexpr_eq in Hk. destruct (ok_dexpr B CD (ENeg a)) eqn:Ho; [|discriminate].
-    apply comp_pure. exact (ok_dexpr_pure _ _ _ Ho).
+  - (* ENeg *)
+    intros a IHa SF B CD k0 Hk d st. destruct (pure (ENeg a)) eqn:Hp; [now apply comp_pure|].
+    rewrite kexpr_eq in Hk. destruct (ok_dexpr B CD (ENeg a)) eqn:Ho; [apply ok_dexpr_pure in Ho; congruence|].
+    destruct (kexpr SF B CD a) as [[|? ?|]|] eqn:Ea; try discriminate.
+    rewrite cexpr_ENeg, ec_ENeg. rewrite (IHa SF B CD _ Ea (S d) st).
+    destruct (ec path (S d) (lreg st) (fid st) a) as [ca fa]. cbn [fst snd]. now rewrite map_app.
   - (* ECall *)
     intros f l _ IHl SF B CD k0 Hk d st. rewrite kexpr_eq in Hk.
     destruct (ok_dexpr B CD (ECall f l)) eqn:Ho; [apply ok_dexpr_pure in Ho; discriminate|].
